@@ -164,6 +164,7 @@ func (e *kvElection) handleWatchEvent(entry Entry) {
 					zap.Uint64("revision", entry.Revision()),
 				)...,
 			)
+			verifNote(e, "watch_lost", 0)
 			e.becomeFollower()
 		}
 		return
